@@ -25,7 +25,7 @@ LEVEL = "exploration"
 RUNS = {"quick": 40000, "thorough": 1000000}
 WALL = {"quick": 240, "thorough": 1500}
 PARTITIONS = [{"name": "default", "env": {}}]
-FAULT_KINDS = ["refusal_probe", "fill_between_scalings", "int_dtype_scaled", "numpy_scalar", "chain>=3",
+FAULT_KINDS = ["built_from_callers_arrays", "refusal_probe", "fill_between_scalings", "int_dtype_scaled", "numpy_scalar", "chain>=3",
                "missed_present", "custom_errors", "inplace"]
 RULE = ("one run = one live histogram (1-3 D, any binning family, int/float dtype, with missed weight and optional "
         "custom errors) or a collection, then a seeded chain (<= 10) of scalings / divisions / normalisations "
@@ -86,7 +86,10 @@ def generate(rng, seed, part):
         dtype = {"float16": "float32", "int16": "int32"}[dtype]  # thousands of entries: beyond what 11 bits can count
     cfg = {"ndim": ndim, "axes": axes, "weights": wkind, "dtype": dtype,
            "initial": n, "custom_errors": rng.random() < 0.2, "names": rng.random() < 0.5,
-           "keep_missed": rng.random() < 0.8}
+           "keep_missed": rng.random() < 0.8,
+           # the node rebuilt through its class constructor from arrays the caller keeps (contents, squared errors,
+           # missed count): scaling the histogram must never write into them
+           "from_callers_arrays": rng.random() < 0.25}
     ops = []
     nxt_entry = n
     for _ in range(rng.randint(1, 10)):
@@ -211,6 +214,22 @@ def execute(plan, ctx):
         ctx.probe("setup_failed:" + type(h).__name__)
         return
     kind = "1D" if ndim == 1 else "ND"
+    callers = []
+    if cfg.get("from_callers_arrays") and not plan["config"].get("names"):
+        def rebuild():
+            kw = {"frequencies": np.array(h.frequencies), "errors2": np.array(h.errors2), "dtype": h.dtype}
+            if ndim == 1:
+                return type(h)(h.binning.copy(), keep_missed=h.keep_missed, underflow=h.underflow,
+                               overflow=h.overflow, inner_missed=h.inner_missed, stats=h.statistics, **kw), kw
+            kw["missed"] = np.array([h.missed], dtype=h.dtype)
+            return type(h)([b.copy() for b in h.binnings], **kw), kw
+        ok_r, res_r = attempt(rebuild)
+        if ok_r and not snap_diff(snap(h), snap(res_r[0]), ignore=("name", "title", "meta", "axis_names")):
+            h, kw_r = res_r
+            callers = [(k, v, v.copy()) for k, v in kw_r.items() if isinstance(v, np.ndarray)]
+            ctx.fault("built_from_callers_arrays")
+        else:
+            ctx.probe("rebuild_from_arrays_skipped")
     if any(x != 0 and not math.isnan(x) for x in missed_tuple(h)):
         ctx.fault("missed_present")
     if cfg.get("custom_errors"):
@@ -237,8 +256,17 @@ def execute(plan, ctx):
                           f"{opname} by {factor!r}: missed {m1.tolist()} != {m0.tolist()} * factor")
         check_linear_stats_only(ctx, res, stats_before, factor, opname, ndim, rtol=stat_rtol[0])
 
-    for step, op in enumerate(plan["ops"]):
-        ctx.step = step
+    for step, op in enumerate(list(plan["ops"]) + [{"op": "__end__"}]):
+        ctx.step = min(step, max(len(plan["ops"]) - 1, 0))
+        for name_, arr_, orig_ in callers:
+            if not np.array_equal(arr_, orig_, equal_nan=True):
+                last = plan["ops"][step - 1]["op"] if step else "construction"
+                # not part of C06's statement (the scaled histogram itself is right): counted only. The same aliasing
+                # is reported by C03 through replicas built from one caller-owned array.
+                ctx.probe(f"callers_{name_}_array_modified_by_scaling(C03)")
+                callers = [c_ for c_ in callers if c_[0] != name_]
+        if op["op"] == "__end__":
+            break
         ctx.advance()
         o = op["op"]
         pre = snap(h)
